@@ -670,6 +670,7 @@ func c10Access(p *Prog, rp *Report) {
 			r.ok(key, p.Pos(fn.Pos()), "reads field "+lits[0])
 		}
 	}
+	c10Files(p, r)
 	// Maintainers: maintainer first, then uploaders
 	for _, typ := range []string{"DSC", "SourceParagraph"} {
 		fn := p.Method("control", typ, "Maintainers")
@@ -842,6 +843,134 @@ func c10Access(p *Prog, rp *Report) {
 	}
 }
 
+// c10Files: accessors over the Files list and the embedded-struct descent of the decoder.
+func c10Files(p *Prog, r *Rule) {
+	// DebianSource / GetDSC scan the Files list
+	for _, tc := range []struct{ typ, name, pred, lit string }{{"DSC", "DebianSource", "strings.Contains", ".debian."}, {"Changes", "GetDSC", "strings.HasSuffix", ".dsc"}} {
+		fn := p.Method("control", tc.typ, tc.name)
+		key := "control." + tc.typ + "." + tc.name
+		if fn == nil {
+			r.bad(key, "", "method not found", nil)
+			continue
+		}
+		okLoop, okPred := false, false
+		for _, g := range guardsOf(fn) {
+			if strings.HasSuffix(g.Term, "< len(p0.Files))") {
+				okLoop = true
+			}
+			if strings.HasPrefix(g.Term, tc.pred+"(") && strings.HasSuffix(g.Term, ".Filename,\""+tc.lit+"\")") {
+				okPred = true
+			}
+		}
+		r.check(okLoop && okPred, key, p.Pos(fn.Pos()), "scans the Files list for a name with "+tc.lit, fmt.Sprintf("expected a scan of the Files field testing %s(name, %q); scans Files: %v, test present: %v", tc.pred, tc.lit, okLoop, okPred))
+	}
+	// AbsFiles: every listed name joined to the directory of the control file, entries otherwise unchanged, order kept
+	for _, typ := range []string{"DSC", "Changes"} {
+		fn := p.Method("control", typ, "AbsFiles")
+		key := "control." + typ + ".AbsFiles"
+		nt := p.Named("control", typ)
+		fhT := p.Named("control", "FileHash")
+		if fn == nil || nt == nil {
+			r.bad(key, "", "method not found", nil)
+			continue
+		}
+		elemT := structOf(nt).Field(fieldIndex(structOf(nt), "Files")).Type().Underlying().(*types.Slice).Elem().(*types.Named)
+		m := NewMachine(p, nil)
+		installStringModels(m)
+		st := initState(m, "control")
+		arr := &ArrayV{}
+		for _, n := range []string{"one.tar.gz", "two.dsc"} {
+			e := zeroVal(elemT).(*StructV)
+			e.F[0] = mkStruct(fhT, map[string]Val{"Filename": n, "Hash": "h-" + n, "Size": int64(7), "Algorithm": "md5"})
+			arr.E = append(arr.E, e)
+		}
+		aid := st.alloc(types.NewArray(elemT, 2), arr)
+		id := st.alloc(nt, mkStruct(nt, map[string]Val{"Filename": "/srv/in/x.ctl", "Files": SliceV{Obj: aid, Len_: 2, Cap: 2}}))
+		st.push(fn, []Val{Ptr{Obj: id}}, nil)
+		out := m.Run(st)
+		if len(out) != 1 || out[0].Status != stRet {
+			r.undecided(key, p.Pos(fn.Pos()), retDesc(out))
+			continue
+		}
+		elems, _, _ := m.sliceElems(st, st.Ret)
+		var got []string
+		for _, e := range elems {
+			if sv, ok := e.(*StructV); ok {
+				if fh, ok := sv.F[0].(*StructV); ok {
+					got = append(got, fmt.Sprintf("%v|%v|%v", fh.F[fieldIndex(structOf(fhT), "Filename")], fh.F[fieldIndex(structOf(fhT), "Hash")], fh.F[fieldIndex(structOf(fhT), "Size")]))
+				}
+			}
+		}
+		want := "/srv/in/one.tar.gz|h-one.tar.gz|7,/srv/in/two.dsc|h-two.dsc|7"
+		r.check(strings.Join(got, ",") == want, key, p.Pos(fn.Pos()), "names joined to the control file's directory; hashes, sizes and order unchanged", fmt.Sprintf("AbsFiles of /srv/in/x.ctl listing one.tar.gz, two.dsc = %v", got))
+	}
+	// the decoder must descend into embedded (anonymous) structs such as BestChecksums
+	ds := p.Func("control", "decodeStruct")
+	if ds == nil {
+		r.bad("control.decodeStruct:embedded", "", "function not found", nil)
+		return
+	}
+	var descent *ssa.Call
+	for _, c := range callsNamed(ds, ds.String()) {
+		// the recursion on a field (not the pointer-following call at the top)
+		tm := newTermer()
+		if strings.Contains(tm.term(c.Call.Args[1]), ".Field(") {
+			descent = c
+		}
+	}
+	var gA, gP *guard
+	gs := guardsOf(ds)
+	for i, g := range gs {
+		if strings.HasSuffix(g.Term, ".Anonymous") {
+			gA = &gs[i]
+		}
+		if strings.Contains(g.Term, ".Type == reflect.TypeOf(") {
+			gP = &gs[i]
+		}
+	}
+	ok := false
+	why := "no recursive descent into struct-typed fields"
+	if descent != nil {
+		switch {
+		case gA == nil:
+			ok = true
+		case descent.Block().Dominates(gA.If.Block()) || descentGuardDominates(gs, descent, gA):
+			ok = true
+		default:
+			why = "the descent into nested structs happens only after anonymous fields other than Paragraph were skipped: an embedded struct such as BestChecksums is never filled"
+			if gP != nil {
+				// reachable from the not-a-Paragraph side within the same iteration?
+				header := descent.Block()
+				_ = header
+				seen := map[*ssa.BasicBlock]bool{}
+				var walk func(b *ssa.BasicBlock) bool
+				walk = func(b *ssa.BasicBlock) bool {
+					if seen[b] {
+						return false
+					}
+					seen[b] = true
+					if b == descent.Block() {
+						return true
+					}
+					for _, s2 := range b.Succs {
+						if s2.Dominates(b) { // back edge: next iteration
+							continue
+						}
+						if walk(s2) {
+							return true
+						}
+					}
+					return false
+				}
+				if walk(gP.If.Block().Succs[1]) {
+					ok = true
+				}
+			}
+		}
+	}
+	r.check(ok, "control.decodeStruct:embedded", p.Pos(ds.Pos()), "struct-typed fields, embedded ones included, are decoded from the same paragraph", why)
+}
+
 func keysOf(m map[string]bool) []string {
 	var out []string
 	for k := range m {
@@ -887,4 +1016,16 @@ func c10Reader(p *Prog, rp *Report) {
 	srcFirst := strings.Contains(targets[0], "Source") && strings.Contains(targets[1], "Binaries")
 	r.check(same && isParam && srcFirst, "control.ParseControl", pos, "both Unmarshal calls get the function's reader parameter; Source first, then Binaries",
 		fmt.Sprintf("Unmarshal targets %v; same reader value: %v; reader is the parameter: %v", targets, same, isParam))
+}
+
+
+// descentGuardDominates: the `kind == Struct` test guarding the descent is
+// evaluated before the Anonymous test on every path.
+func descentGuardDominates(gs []guard, descent *ssa.Call, gA *guard) bool {
+	for _, g := range gs {
+		if strings.Contains(g.Term, ".Kind() == 25)") && g.If.Block().Succs[0].Dominates(descent.Block()) && g.If.Block().Dominates(gA.If.Block()) {
+			return true
+		}
+	}
+	return false
 }
